@@ -48,7 +48,7 @@ class IterEngine(Engine):
     name = "iter"
 
     def n_cases(self, tier):
-        return 1600 if tier == "quick" else 16000
+        return 1200 if tier == "quick" else 12000
 
     # ------------------------------------------------------------------ corpus
     def corpus(self):
@@ -262,7 +262,12 @@ class IterEngine(Engine):
             # bounds the lifetime from above
             return "restore-mapping" if t == e["rt"] else None
 
+        if out.strip() == "SKIPPED-AFTER-HANG":
+            return hits
         for op, o in zip(ops, outs):
+            if o == "HANG":
+                hit("hang", "op %s did not return within 30 s" % " ".join(op))
+                break
             if o == "PANIC" or o.startswith("DRIVER") or "ERROR" in o or "OUT-OF-FUEL" in o:
                 hit("panic", "op %s -> %s" % (" ".join(op), o))
                 break
